@@ -10,10 +10,13 @@ bottom-up.
 Model.  The payload store is keyed by allocation id (= Python object identity of the marker).
 `attachTarget` is `attach_payload`; `exec` is `iteration.Engine.execute`; `ExecState.evals` is a
 ghost log that records each evaluation of a materialization's upstream tree (never read by the
-engine).  `Processor.process` histories are outside these theorems (modelled in
-Model/Processor.lean, validated by correspondence and by the C10 oracle).
+engine).  `Processor.process`: `processing_is_write_once` (below) covers one `process` call on the class of
+multi-engine trees of C07 (operations in iteration engines; transfers between iteration engines and out of a SQL
+engine; materializations of single-engine subtrees and directly after a transfer); other `process` calls and
+histories of several calls are validated by correspondence and by the C10 oracle (Model/Processor.lean).
 -/
 import DafRel.Lemmas.Payload
+import DafRel.Lemmas.ProcMulti
 
 namespace DafRel.Props.C10
 
@@ -143,6 +146,20 @@ theorem history_write_once_evaluate_once (σ : Leaves) (hist : List Step)
     have h2 := ih (fun x hx => hac x (by simp [hx])) (step σ s st) (h1.2 hok)
     exact ⟨fun o p hp => h2.1 o p (h1.1 o p hp), h2.2⟩
 
+/-- **`Processor.process` is write-once too** (the class of trees of C07, any recursion budget, any starting state
+that satisfies the processing invariant): every payload that was in the store is still there afterwards - the same
+object, not a recomputed one -; payloads were ADDED only to Materializations of the input tree and to nodes the
+Processor created itself; nothing was attached on the database side. -/
+theorem processing_is_write_once (σ : Leaves) (sq0 : SqlState) (h0 : sq0.payload 0 = none) (t : Rel)
+    (fuel : Nat) (matAs : Option String) (s : ProcState) (reg : Nat → Option (List Row)) (hm : t.MultiIter)
+    (hsql : t.SqlSrcOK σ sq0) (T : TreeInv σ reg sq0 t s) (hf : t.size ≤ fuel)
+    (res : Res) (b : Bool) (s' : ProcState) (h : (processRec σ fuel t matAs).run.run s = (.ok (res, b), s')) :
+    (∀ o p, s.st.payload o = some p → s'.st.payload o = some p) ∧
+      (∀ o, (s'.st.payload o).isSome = true → (s.st.payload o).isSome = true ∨ o ∈ t.matOids ∨ s.nextTemp ≤ o) ∧
+      s'.sq = s.sq := by
+  obtain ⟨reg', _, P⟩ := process_multi_iter σ h0 t fuel matAs s reg hm hsql T hf res b s' h
+  exact ⟨P.keep, P.newp, P.inv.sq.trans T.sq.symm⟩
+
 /-- The empty store is a valid starting point. -/
 theorem evalsOK_empty : EvalsOK {} := by
   refine ⟨List.nodup_nil, ?_⟩
@@ -160,5 +177,14 @@ private def tree0 : Rel := .mat 5 "m" (.unary (.sort [⟨.ref ta, true⟩]) leaf
 example : tree0.Acyclic := by simp [tree0, Rel.Acyclic, Rel.matOids, leaf0]
 example : ([Step.execute e0 tree0, Step.execute e0 tree0].foldl (step σ0) {}).evals = [5] := by decide
 example : ([Step.execute e0 tree0, Step.execute e0 tree0].foldl (step σ0) {}).log = [1] := by decide
+
+/-- the processing invariant `TreeInv` of `processing_is_write_once` is satisfiable: a materialized leaf, nothing
+stored yet, the Processor's first temporary id still to be handed out -/
+example : TreeInv (fun _ => []) (fun o => if o = 5 then some [] else none) {}
+    (Rel.mat 5 "m" (.leaf 1 ⟨1, .iter⟩ [] "L" 0 none true 0)) { st := {}, sq := {} } ∧
+    (Rel.mat 5 "m" (.leaf 1 ⟨1, .iter⟩ [] "L" 0 none true 0)).MultiIter := by
+  refine ⟨⟨trivial, ⟨(fun r hr => by cases hr), Nat.zero_le _, (fun m hm => by cases hm)⟩, rfl, ⟨rfl, trivial⟩,
+    ⟨by decide, trivial⟩, StoreOK_empty _ _, rfl, ⟨rfl, rfl⟩, fun _ _ => rfl, fun _ _ => rfl,
+    ⟨by simp [Rel.matOids], trivial⟩⟩, rfl, Or.inl ⟨rfl, rfl⟩⟩
 
 end DafRel.Props.C10
